@@ -42,7 +42,17 @@ type ctrSpec struct {
 	IPFiles []ipFile   `json:"ip_files,omitempty"`
 	GCFiles []int      `json:"gc_files,omitempty"` // indexes of gc dirs holding a state file named ID
 	Ports   []portSpec `json:"ports,omitempty"`    // real clean-port wiring only
+	// failing port cleanup. Recording callback: CBFail -1 = the callback returns an error every time, n>0 = the first
+	// n calls fail. Real wiring: PortFile truncated|garbage|empty = what /var/lib/cni/galaxy/port/<id> holds instead
+	// of the ports JSON (crash in mid-write); IptFail = every iptables operation of CleanPortMapping fails.
+	CBFail   int    `json:"cb_fail,omitempty"`
+	PortFile string `json:"port_file,omitempty"`
+	IptFail  bool   `json:"ipt_fail,omitempty"`
 }
+
+// portCleanMayFail: the port state of this container cannot (or need not) be cleaned; only its files in the gc
+// dirs and IP dirs are owed.
+func (c *ctrSpec) portCleanMayFail() bool { return c.CBFail != 0 || c.PortFile != "" || c.IptFail }
 
 type dirSpec struct {
 	Rel    string `json:"rel"`
@@ -370,6 +380,28 @@ func genPop(seed int64, mode string, idx int, tier string, pid int) *popSpec {
 				c.Ports = append(c.Ports, portSpec{HostPort: hostPort, ContainerPort: int32(80 + k),
 					Protocol: []string{"tcp", "udp"}[rng.Intn(2)], PodName: c.Pod,
 					PodIP: fmt.Sprintf("172.16.%d.%d", 100+i, 2+k)})
+			}
+		}
+		// dead containers whose port cleanup fails
+		if c.Tail >= 0 && len(c.GCFiles) > 0 {
+			if !p.RealCallback && rng.Intn(100) < 35 {
+				if rng.Intn(5) < 3 {
+					c.CBFail = -1
+				} else {
+					c.CBFail = 1 + rng.Intn(4)
+				}
+			}
+			if p.RealCallback && len(c.Ports) > 0 && rng.Intn(100) < 45 {
+				switch rng.Intn(4) {
+				case 0:
+					c.PortFile = "truncated"
+				case 1:
+					c.PortFile = "garbage"
+				case 2:
+					c.PortFile = "empty"
+				default:
+					c.IptFail = true
+				}
 			}
 		}
 		p.Ctrs = append(p.Ctrs, c)
